@@ -500,6 +500,8 @@ var vpTemplates = []string{
 	/* 48 */ "\x01 = { ui = { P = {} } }\nfunction \x01.ui.P:show(\x02)\n local s = self\n g = self.k\n return \x02, s\nend\nlocal \x03 = { n = { P = {} } }\nfunction \x03.n.P:m()\n return function() return self end\nend\n",
 	// a global first assigned inside a top-level block (a guard), later inside functions
 	/* 49 */ "if k then\n \x01 = 0\n \x02 = 1\nend\nfunction add(n)\n \x01 = n + 1\n do \x02 = n end\nend\nfunction reset() \x01 = 0 end\ng = \x01 + \x02\n",
+	// a chained call used as a statement, with multi-line callbacks in every link
+	/* 50 */ "local \x03 = 0\no:next(function(\x01)\n local \x02 = \x01\n return \x02 + \x03\nend):next(function(\x02)\n return \x02 + \x03\nend):catch(function(\x01)\n g = \x01\nend)\n",
 }
 
 // vpInstantiate fills the holes of template t with symbolic names; tag prefixes the variable names.
